@@ -192,7 +192,7 @@ func (obj *StandardObject) Receive(s *slip.Scope, message string, args slip.List
 	if s != nil {
 		scope.AddParent(s)
 	}
-	obj.setObjectScope(s)
+	obj.setObjectScope(scope)
 
 	return m.Call(scope, args, depth)
 }
